@@ -301,7 +301,7 @@ class Ctx:
     """The 2-snapshot table on one backend, a handle opened before any damage, and the
     harness-side (plain os / dict) access used to plant damage."""
 
-    def __init__(self, backend: str, tag: str):
+    def __init__(self, backend: str, tag: str, orphan_tip: bool = False):
         from datashard import create_table, load_table
 
         self.backend = backend
@@ -327,6 +327,19 @@ class Ctx:
             tx.append_data([row(i) for i in range(0, 4)])
             tx.append_data([row(i) for i in range(10, 14)])
         t.append_records([row(i) for i in range(20, 24)])
+        if orphan_tip:
+            # leftover of a committer that died before flipping the pointer: an uncommitted HIGHER metadata version
+            # (here: the table without its latest snapshot). Nothing may ever answer a read from it.
+            st = t.storage
+            ptr = st.read_file("metadata.version-hint.text").decode().strip()
+            md = json.loads(st.read_file(f"metadata/{ptr}").decode())
+            ver = int(ptr[1:ptr.index("-")])
+            keep = md["snapshots"][:-1]
+            md["snapshots"] = keep
+            md["current_snapshot_id"] = keep[-1]["snapshot_id"]
+            md["snapshot_log"] = [x for x in md["snapshot_log"] if x["snapshot_id"] in {k["snapshot_id"] for k in keep}]
+            md["last_updated_ms"] += 1
+            st.write_file(f"metadata/v{ver + 1}-0badc0de.metadata.json", json.dumps(md, indent=2).encode())
         self.t = load_table(self.location)
 
         ts = reader.TableState(self.view)
@@ -581,7 +594,7 @@ def _brief(ans: Any) -> Any:
 def worker(payload: Tuple[Any, ...]) -> Dict[str, Any]:
     kind, tier, seed, backend = payload[:4]
     rep = Report(PROP, tier, seed, LEVEL)
-    ctx = Ctx(backend, f"{kind}-{backend}-{os.getpid()}")
+    ctx = Ctx(backend, f"{kind}-{backend}-{os.getpid()}", orphan_tip=(kind == "outage"))
     j = Judge(rep, ctx)
     try:
         if kind == "damage":
